@@ -13,6 +13,7 @@ fn main() {
   let mut out = std::io::BufWriter::new(stdout.lock());
   let mut engine_state = h::engine::State::default();
   let mut routing_state = h::routing::State::default();
+  let mut conc_state = h::conc::State::default();
   for line in stdin.lock().lines() {
     let line = line.unwrap();
     let line = line.trim();
@@ -40,6 +41,7 @@ fn main() {
           h::routing::run_op(&mut st, &parts)
         })
       }
+      "conc" => h::conc::run_op(&mut conc_state, &parts),
       _ => "bad-component".to_string(),
     };
     writeln!(out, "{}", res).unwrap();
